@@ -30,6 +30,7 @@ var (
 	crashAt = -1
 	prefix  int
 	mutN    int
+	tempN   int
 	open    = map[*os.File]bool{}
 	// SigKill: instead of raising the sentinel, kill the process for real (cross-check mode).
 	SigKill bool
@@ -39,7 +40,17 @@ var (
 func Begin(crashStep, crashPrefix int, logging bool) {
 	mu.Lock()
 	defer mu.Unlock()
-	log, logOn, crashAt, prefix, mutN = nil, logging, crashStep, crashPrefix, 0
+	log, logOn, crashAt, prefix, mutN, tempN = nil, logging, crashStep, crashPrefix, 0, 0
+}
+
+// NextTemp numbers the temporary files created through the seam since Begin: their names are a
+// function of the operation history, not of a random source, so that the simulated and the real
+// kill of one crash plan leave identically named files whatever naming scheme the code uses.
+func NextTemp() int {
+	mu.Lock()
+	defer mu.Unlock()
+	tempN++
+	return tempN
 }
 
 // End disables crashing, closes descriptors the dead "process" left open and returns the log.
